@@ -1,5 +1,6 @@
 import Refine.Lemmas.Gradation
 import Refine.Lemmas.GradationEx
+import Refine.Lemmas.MetricLimit2
 import Refine.Props.C10
 
 /-!
@@ -26,6 +27,9 @@ import Refine.Props.C10
       metric (the coded factor `(1 + sqrt(eᵀMe)·log r)^-2`).
   (4) `gradationSweep_twod_embed`: the embedding block after the sweep returns embedded tensors, keeps SPD, and
       keeps dominance over an embedded input.
+  (6) `limitAspectRatio2_spd_embedded`, `limitAspectRatio2_field_embedded`: the 2-D aspect-ratio limiter.
+  (7) `localScale_exponent_dim`, `localScale_det3`, `localScale_det2`, `lp_front_spd`, `lpChain_complexity`: the Lp
+      exponent matches the dimension; the stages of `ref_metric_lp` after the reconstruction.
   (5) `gacLoop_spd`, `gacLoop_embedded`, `gradation_at_complexity_final`: through any number of relaxations the
       field stays SPD (and embedded in 2-D); the function ends with the `setComplexity` block, so by
       `Props/C10.setComplexity_exact` the output complexity equals the target, whatever the relaxations did.
@@ -342,6 +346,121 @@ theorem gradation_at_complexity_div_zero (twod : Bool) (owned : Nat → Bool) (x
   unfold gradationAtComplexityWith
   rw [hg]
   exact Refine.Props.C10.setComplexity_div_zero twod owned xyz g cells target
+
+/-! ### (6) the 2-D aspect-ratio limiter (`ref_metric_limit_aspect_ratio`, `ref_grid_twod` branch) -/
+
+/-- one vertex: the result is embedded, and SPD when the larger in-plane eigenvalue and the out-of-plane eigenvalue
+    returned by `ref_matrix_diag_m` + `ref_matrix_descending_eig_twod` are positive -/
+theorem limitAspectRatio2_spd_embedded {ar2 : ℝ} (har : 0 < ar2) {m out : M6 ℝ} {d d' : Eig12 ℝ} (hd : diagM m = .ok d)
+    (hs : descendingEigTwod d = .ok d') (hmax : 0 < max d'.l1 d'.l0) (hz : 0 < d'.l2)
+    (h : limitArNode2 ar2 m = .ok out) : SPD out ∧ IsEmbedded out :=
+  limitArNode2_spd_embedded har hd hs hmax hz h
+
+/-- one vertex, unconditionally: whatever the decomposition returned, a successful 2-D limiter ends with `twod_m` -/
+theorem limitArNode2_embedded {ar2 : ℝ} {m out : M6 ℝ} (h : limitArNode2 ar2 m = .ok out) : IsEmbedded out := by
+  unfold limitArNode2 at h
+  cases hd : diagM m with
+  | error e => rw [hd] at h; cases h
+  | ok d =>
+    rw [hd] at h
+    dsimp only at h
+    cases hs : descendingEigTwod d with
+    | error e => rw [hs] at h; cases h
+    | ok d' =>
+      rw [hs] at h
+      dsimp only at h
+      split_ifs at h
+      injection h with h
+      subst h
+      exact twodM_embedded _
+
+/-- the whole field: after a successful 2-D `ref_metric_limit_aspect_ratio` every vertex tensor is embedded -/
+theorem limitAspectRatio2_field_embedded (ar : ℝ) (metric out : List (M6 ℝ))
+    (h : limitAspectRatio true ar metric = .ok out) : ∀ m ∈ out, IsEmbedded m := by
+  unfold limitAspectRatio at h
+  simp only [if_true] at h
+  exact mapM6_all (fun m o hm => limitArNode2_embedded hm) metric out h
+
+/-! ### (7) the Lp normalisation exponent and the stages of `ref_metric_lp` -/
+
+/-- `exponent = -1.0 / (2 * p_norm + dimension)` with dimension 2 on `ref_grid_twod` grids, else 3 -/
+theorem localScale_exponent_dim (twod : Bool) (p : Int) :
+    (localScaleExponent twod p : ℝ) = -1 / (2 * (p : ℝ) + (if twod then 2 else 3)) :=
+  localScaleExponent_eq twod p
+
+/-- the exponent matches the dimension, 3-D: the coded determinant of the normalised tensor is `det^(2p/(2p+3))` -/
+theorem localScale_det3 (p : Int) (m : M6 ℝ) (hd : 0 < detM m) :
+    detM (localScaleNode (localScaleExponent false p) m) = (detM m) ^ ((2 * (p : ℝ)) / (2 * (p : ℝ) + 3)) :=
+  localScaleNode_det3 p m hd
+
+/-- the exponent matches the dimension, 2-D (embedding re-imposed as the C does): `det^(2p/(2p+2))` -/
+theorem localScale_det2 (p : Int) (hp : p ≠ -1) (m : M6 ℝ) (he : IsEmbedded m) (hd : 0 < detM m) :
+    detM (twodM (localScaleNode (localScaleExponent true p) m)) = (detM m) ^ ((2 * (p : ℝ)) / (2 * (p : ℝ) + 2)) :=
+  localScaleNode_det2 p hp m he hd
+
+/-- Hessian → eigenvalue floor → Lp normalisation: SPD at every vertex whatever the reconstructed Hessian was -/
+theorem lp_front_spd (twod : Bool) (p : Int) (xyz : List (V3 ℝ)) (cells : List Cell) (hessian floored : List (M6 ℝ))
+    (h : roundoffLimit xyz cells hessian = .ok floored) : ∀ m ∈ localScale twod p floored, SPD m :=
+  Refine.Props.C10.localScale_spd twod p floored (Refine.Props.C10.roundoffLimit_spd xyz cells hessian floored h)
+
+/-- what a successful run of the stages of `ref_metric_lp` after the reconstruction is -/
+theorem lpChain_split {twod : Bool} {owned : Nat → Bool} {xyz : List (V3 ℝ)} {cells : List Cell} {p : Int}
+    {gradation ar target : ℝ} {hessian out : List (M6 ℝ)}
+    (h : lpChain twod owned xyz cells p gradation ar target hessian = .ok out) :
+    ∃ floored limited, roundoffLimit xyz cells hessian = .ok floored ∧
+      limitAspectRatio twod ar (localScale twod p floored) = .ok limited ∧
+      gradationAtComplexity twod owned xyz cells gradation target limited = .ok out := by
+  unfold lpChain at h
+  cases h1 : roundoffLimit xyz cells hessian with
+  | error e => rw [h1] at h; cases h
+  | ok floored =>
+    rw [h1] at h
+    dsimp only at h
+    cases h2 : limitAspectRatio twod ar (localScale twod p floored) with
+    | error e => rw [h2] at h; cases h
+    | ok limited =>
+      rw [h2] at h
+      exact ⟨floored, limited, rfl, h2, h⟩
+
+/-- **the multiscale chain meets the requested complexity**: for any Hessian field, norm power, gradation and
+    aspect-ratio limit, a successful run returns a field of complexity exactly `target`, embedded on a 2-D grid
+    (the embedding of the limiter's output is proved, not assumed).  Hypothesis `hc`: the field left by the 20
+    relaxations has positive complexity. -/
+theorem lpChain_complexity (twod : Bool) (owned : Nat → Bool) (xyz : List (V3 ℝ)) (cells : List Cell) (p : Int)
+    (gradation ar target : ℝ) (hessian out : List (M6 ℝ))
+    (h : lpChain twod owned xyz cells p gradation ar target hessian = .ok out) (ht : 0 < target)
+    (hc : ∀ limited g, gacLoop twod owned xyz cells (edgeList cells) gradation target 20 limited = .ok g →
+      0 < complexity owned xyz g cells)
+    (hdim : twod = !(haveVolCells owned cells)) :
+    complexity owned xyz out cells = target ∧ (twod = true → ∀ m ∈ out, IsEmbedded m) := by
+  obtain ⟨floored, limited, _, h2, h3⟩ := lpChain_split h
+  refine gradationAtComplexity_final twod owned xyz cells gradation target limited out h3 ht (hc limited) hdim ?_
+  intro htw
+  subst htw
+  exact limitAspectRatio2_field_embedded ar _ limited h2
+
+/-- non-vacuity of the 2-D limiter theorem: diag(4, 9, 1) with `ar² = 4`: the frame is reordered to (9, 4 | 1), the
+    limit is 9/4, both in-plane eigenvalues already exceed it -/
+example : ∃ out, limitArNode2 (4 : ℝ) ⟨4, 0, 0, 9, 0, 1⟩ = .ok out ∧ SPD out ∧ IsEmbedded out := by
+  have hd := diagM_diagonal' 4 9 1
+  have hs : descendingEigTwod (⟨4, 9, 1, 1, 0, 0, 0, 1, 0, 0, 0, 1⟩ : Eig12 ℝ) = .ok ⟨9, 4, 1, 0, 1, 0, 1, 0, 0, 0, 0, 1⟩ := by
+    unfold descendingEigTwod
+    simp only [Scalar.bgt, cabs_eq, mul_eq, add_eq, zero_eq, one_eq, ofInt_eq]
+    norm_num [swap01, swap02, swap12, Scalar.lt]
+  have hg : Scalar.divisible (max (4 : ℝ) 9) 4 = true := by rw [divisible_iff]; norm_num
+  have : ∃ out, limitArNode2 (4 : ℝ) ⟨4, 0, 0, 9, 0, 1⟩ = .ok out := by
+    unfold limitArNode2
+    rw [hd]
+    dsimp only
+    rw [hs]
+    simp only [cmax_eq, div_eq, hg, Bool.not_true, Bool.false_eq_true, if_false]
+    exact ⟨_, rfl⟩
+  obtain ⟨out, ho⟩ := this
+  exact ⟨out, ho, limitAspectRatio2_spd_embedded (by norm_num) hd hs (by norm_num) (by norm_num) ho⟩
+
+/-- non-vacuity of `localScale_det3`: the identity has coded determinant 1 -/
+example (p : Int) : detM (localScaleNode (localScaleExponent false p) (⟨1, 0, 0, 1, 0, 1⟩ : M6 ℝ)) = 1 := by
+  rw [localScale_det3 p _ (by rw [Refine.Props.C10.detM_identity]; norm_num), Refine.Props.C10.detM_identity, Real.one_rpow]
 
 /-! ### non-vacuity: two vertices, one edge, `r = 1`, tensors diag(4,9,1) and diag(1,36,1/4) -/
 
